@@ -136,6 +136,26 @@ def run_attached(shard, tier, seed):
                             r = lib.call(R.add_child, k, int(how.rsplit('-', 1)[1]))
                         if r[0] == 'ok':
                             c['attached_child_accepted'] += 1
+                            # the child is now listed twice (by two elements, or twice by one). One listing is removed again;
+                            # whatever the library makes of a replacement through the other listing, if that call RAISES the
+                            # element it was called on must be as before the call
+                            if how == 'add' and lib.call(R.remove, k)[0] == 'ok':
+                                before_D = state(D)
+                                new = lib.make(lib.child_cls(k.name))
+                                for form in ('object', 'predicate'):
+                                    r3 = lib.call(D.replace_child, k, new) if form == 'object' else \
+                                        lib.call(D.replace_child, (lambda ch, _k=k: ch is _k), new)
+                                    evals += 1
+                                    if r3[0] == 'ok':
+                                        break
+                                    nontriv += 1
+                                    c['replacement_through_stale_listing_refused'] += 1
+                                    if state(D) != before_D:
+                                        viol.append({'sig': {'type': t, 'kind': 'refused-replacement-through-stale-listing-changed-the-element',
+                                                             'held_by': holder, 'exc': type(r3[1]).__name__},
+                                                     'case': {'type': t, 'word': list(w), 'child': i, 'how': how, 'holder': holder},
+                                                     'detail': {'msg': str(r3[1])[:120], 'form': form}})
+                                        break
                             continue
                         nontriv += 1
                         c['attached_child_refused'] += 1
